@@ -839,11 +839,56 @@ fn run_line(line: &str) -> String {
     r.unwrap_or_else(|| "BAD-CASE".to_string())
 }
 
+fn run_guarded(l: &str) -> String {
+    let owned = l.to_string();
+    match panic::catch_unwind(move || run_line(&owned)) {
+        Ok(s) => s,
+        Err(_) => "PANIC".to_string(),
+    }
+}
+
 fn main() {
     panic::set_hook(Box::new(|_| {}));
+    let args: Vec<String> = std::env::args().collect();
     let stdin = io::stdin();
     let stdout = io::stdout();
     let mut out = io::BufWriter::new(stdout.lock());
+    if args.len() >= 3 && args[1] == "--threads" {
+        // concurrent mode (C20): all lines are read first, then evaluated from N threads,
+        // thread t taking lines t, t+N, ...; results are printed in input order.
+        let n: usize = args[2].parse().unwrap_or(16);
+        let lines: Vec<String> = stdin.lock().lines().filter_map(|l| l.ok()).collect();
+        let lines = std::sync::Arc::new(lines);
+        let mut handles = vec![];
+        for t in 0..n {
+            let lines = lines.clone();
+            handles.push(std::thread::spawn(move || {
+                let mut res = vec![];
+                let mut i = t;
+                while i < lines.len() {
+                    let l = lines[i].trim().to_string();
+                    if l.is_empty() || l.starts_with('#') {
+                        res.push((i, l));
+                    } else {
+                        res.push((i, run_guarded(&l)));
+                    }
+                    std::thread::yield_now();
+                    i += n;
+                }
+                res
+            }));
+        }
+        let mut all: Vec<(usize, String)> = vec![];
+        for h in handles {
+            all.extend(h.join().unwrap());
+        }
+        all.sort();
+        for (_, s) in all {
+            writeln!(out, "{}", s).unwrap();
+        }
+        out.flush().unwrap();
+        return;
+    }
     for line in stdin.lock().lines() {
         let line = match line { Ok(l) => l, Err(_) => break };
         let l = line.trim();
@@ -851,12 +896,7 @@ fn main() {
             writeln!(out, "{}", l).unwrap();
             continue;
         }
-        let owned = l.to_string();
-        let res = panic::catch_unwind(move || run_line(&owned));
-        match res {
-            Ok(s) => writeln!(out, "{}", s).unwrap(),
-            Err(_) => writeln!(out, "PANIC").unwrap(),
-        }
+        writeln!(out, "{}", run_guarded(l)).unwrap();
     }
     out.flush().unwrap();
 }
